@@ -161,3 +161,20 @@ MANIFEST_TEXT["C08"] = {
             "specified verifier rejects iff an independently written 'theory of the template' (MustReject) says the draft requires it. Every structure is signed with the test issuer key, "
             "replayed against the real verifier and validated by TLC: Unpack = ERR obliges rejection, acceptance obliges claims = Unpack(..).",
     "note": _NOTE, "technique": "TLA+ bounded model checking (TLC) of the disclosure-processing algorithm + scenario replay + trace validation"}
+
+PLANS["C09"] = P(
+    "model_checking",
+    ["verify.lenient.time", "verify.accept", "scn.expect.reject", "scn.expect.claims", "scn.model.agrees"],
+    [{"module": "MC_time", "quick": "MC_time_quick.cfg", "thorough": "MC_time.cfg", "timeout": {"quick": 300, "thorough": 900}}],
+    [{"driver": "replay", "scn": "MC_time", "args": {"n": 600, "matrix": 1}}],
+    [{"driver": "replay", "scn": "MC_time", "args": {"n": 100000, "matrix": 1}}],
+    required={"verify.lenient.time": 300, "verify.accept": 50, "scn.model.agrees": 500},
+    rule="cases = behaviours of MC_time: exp in {absent, null, string, negative, now-10y .. now+63y} x nbf in {absent, past, now+30s .. now+10y} x clock positions {0, +2h} "
+         "x key binding {off, on}, replayed over the key matrix in both serializations with instants set relative to the wall clock read by the driver; the trace "
+         "clauses use the logged interval [t0, t1]; offsets inside the 120 s guard band are generated and not asserted; distinct = distinct (exp, nbf, clock, KB) tuples",
+    assumptions=_A + ["the sandbox wall clock does not jump by more than the guard band during one call"],
+)
+MANIFEST_TEXT["C09"] = {
+    "text": "TimeVerdict(exp, nbf, [t0,t1]) in {reject, accept, free} with the 120 s guard band; TLC checks Inv_C09 on MC_time (all offset pairs x clock positions x KB). Behaviours are replayed "
+            "with real instants relative to the wall clock and validated by TLC: verdict reject obliges the implementation to reject (verify.lenient.time), accept obliges it to accept (verify.accept).",
+    "note": _NOTE, "technique": "TLA+ bounded model checking (TLC) + scenario replay + trace validation"}
